@@ -212,7 +212,7 @@ def main(argv=None):
         (matched if e else new).append((v, e))
     lines = []
     rdir = os.path.join(env.VERIF, "evidence", "replay", pid)
-    for v, _ in new:
+    for v, _ in new[:40]:
         os.makedirs(rdir, exist_ok=True)
         name = hashlib.sha1(f"{v['property']}|{v['mechanism']}".encode()).hexdigest()[:12] + ".json"
         rp = os.path.join(rdir, name)
@@ -242,6 +242,7 @@ def main(argv=None):
         "inconclusive_reasons": m["inconclusive"][:20],
         "reach": m["reach"],
         "tree": env.tree_id(),
+        "shard_wall_s": m["shard_walls"],
         "notes": m["notes"][:8],
     }
     cov.update(extra)
